@@ -16,6 +16,8 @@ const (
 
 func init() {
 	register("C15", func(c *core.Ctx, tier string) {
+		connReadEffects(c, "C15.10")
+		connWriteEffects(c, "C15.11")
 		errPolarity(c, "C15.9", "webtransport")
 		c15Panics(c)
 		c15IndexSafety(c)
